@@ -351,6 +351,108 @@ Lemma timeout_does_not_change_attempts :
     run_sleeps (run_with_timeout_and_retry tmsg c t el op idx) = run_sleeps (retry c op idx).
 Proof. intros. split; reflexivity. Qed.
 
+(* ------------------------------------------------------------------ builder construction *)
+
+(* the last with_retry / with_timeout argument of a setter sequence, if any *)
+Fixpoint last_retry (ss : list setter) : option retry_cfg :=
+  match ss with
+  | [] => None
+  | s :: r => match last_retry r with
+              | Some c => Some c
+              | None => match s with SetRetry c => Some c | SetTimeout _ => None end
+              end
+  end.
+Fixpoint last_timeout (ss : list setter) : option N :=
+  match ss with
+  | [] => None
+  | s :: r => match last_timeout r with
+              | Some t => Some t
+              | None => match s with SetTimeout t => Some t | SetRetry _ => None end
+              end
+  end.
+
+Lemma setters_commute : forall b c t,
+    apply_setter (apply_setter b (SetRetry c)) (SetTimeout t) =
+    apply_setter (apply_setter b (SetTimeout t)) (SetRetry c).
+Proof. reflexivity. Qed.
+
+Lemma setter_retry_last_wins : forall b c1 c2,
+    apply_setter (apply_setter b (SetRetry c1)) (SetRetry c2) = apply_setter b (SetRetry c2).
+Proof. reflexivity. Qed.
+
+Lemma setter_timeout_last_wins : forall b t1 t2,
+    apply_setter (apply_setter b (SetTimeout t1)) (SetTimeout t2) = apply_setter b (SetTimeout t2).
+Proof. reflexivity. Qed.
+
+Lemma build_swap : forall pre post c t,
+    build (pre ++ SetRetry c :: SetTimeout t :: post) =
+    build (pre ++ SetTimeout t :: SetRetry c :: post).
+Proof. intros. unfold build. rewrite !fold_left_app. reflexivity. Qed.
+
+Lemma fold_setters_fields : forall ss b,
+    b_retry (fold_left apply_setter ss b) =
+      match last_retry ss with Some c => Some c | None => b_retry b end /\
+    b_timeout (fold_left apply_setter ss b) =
+      match last_timeout ss with Some t => Some t | None => b_timeout b end.
+Proof.
+  induction ss as [|s ss IH]; intros b; [split; reflexivity|].
+  cbn [fold_left last_retry last_timeout]. destruct (IH (apply_setter b s)) as [Hr Ht].
+  rewrite Hr, Ht. split.
+  - destruct (last_retry ss); [reflexivity|]. destruct s; reflexivity.
+  - destruct (last_timeout ss); [reflexivity|]. destruct s; reflexivity.
+Qed.
+
+Lemma build_fields : forall ss,
+    b_retry (build ss) = last_retry ss /\ b_timeout (build ss) = last_timeout ss.
+Proof.
+  intros ss. unfold build. destruct (fold_setters_fields ss builder_new) as [Hr Ht].
+  rewrite Hr, Ht. split; [destruct (last_retry ss)|destruct (last_timeout ss)]; reflexivity.
+Qed.
+
+Lemma builder_run_final_config : forall X M (tmsg : M) ss el (op : nat -> res X M) idx,
+    builder_run tmsg ss el op idx =
+      builder_execute tmsg (last_retry ss) (last_timeout ss) el op idx /\
+    executor_run tmsg ss el op idx =
+      builder_execute tmsg (last_retry ss) (last_timeout ss) el op idx.
+Proof.
+  intros. unfold builder_run, executor_run. destruct (build_fields ss) as [-> ->].
+  split; [reflexivity|apply executor_is_builder].
+Qed.
+
+(* what a builder does, by the LAST value given to each setter, whatever the order and number
+   of setter calls *)
+Lemma builder_by_final_config : forall X M (tmsg : M) ss el (op : nat -> res X M) idx,
+    builder_run tmsg ss el op idx =
+    match last_retry ss, last_timeout ss with
+    | Some c, Some t =>
+        let r := retry c op idx in
+        mk_run (with_timeout tmsg t el (run_out r)) (run_calls r) (run_sleeps r)
+    | Some c, None => retry c op idx
+    | None, Some t => mk_run (with_timeout tmsg t el (Done (op idx))) 1 []
+    | None, None => mk_run (Done (op idx)) 1 []
+    end.
+Proof.
+  intros. destruct (builder_run_final_config X M tmsg ss el op idx) as [-> _].
+  destruct (last_retry ss), (last_timeout ss); reflexivity.
+Qed.
+
+Lemma builder_run_calls_bound : forall X M (tmsg : M) ss el (op : nat -> res X M) idx,
+    let r := builder_run tmsg ss el op idx in
+    (1 <= run_calls r)%nat /\
+    (run_calls r <= match last_retry ss with
+                    | Some c => N.to_nat (N.max 1 (max_attempts c)) | None => 1 end)%nat.
+Proof.
+  intros X M tmsg ss el op idx. cbv zeta.
+  destruct (builder_run_final_config X M tmsg ss el op idx) as [-> _].
+  apply builder_calls_bound.
+Qed.
+
+Lemma executor_run_is_builder_run : forall X M (tmsg : M) ss el (op : nat -> res X M) idx,
+    executor_run tmsg ss el op idx = builder_run tmsg ss el op idx.
+Proof.
+  intros. destruct (builder_run_final_config X M tmsg ss el op idx) as [-> ->]. reflexivity.
+Qed.
+
 (* ------------------------------------------------------------------ run_parallel *)
 
 Lemma run_parallel_all_ok : forall X M (vs : list X),
